@@ -255,7 +255,10 @@ func init() {
 	}
 	planTable["C08"] = crashPlan("Every persistence step of every history is a crash point with the page cache surviving: the image must Open, show a commit-order prefix containing every acknowledged operation, no partial transaction, and be stable under a second close/re-open.",
 		"Histories are sequential (one client thread plus badger's own writer/flusher goroutines).",
-		[]Stage{en("crash08", 16, 70, prm("oracle", "c08", "len", 4, "alphabet", "T2 TV TD WB F C R")), sched("crash08c", 2, 16, 30, prm("threads", 2))},
+		[]Stage{en("crash08", 16, 70, prm("oracle", "c08", "len", 4, "alphabet", "T2 TV TD WB F C R")),
+			// a read transaction's open iterator pins the memtables it was created over (and, before the fix, their WALs): later deletes are flushed and compacted away, then the crash
+			en("crash08", 16, 30, prm("oracle", "c08", "len", 1, "alphabet", "T2", "scripted", "T2 IO F TD F C;T2 IO TD F C T2;TV IO F TD F C IC;T2 F IO TD F C")),
+			sched("crash08c", 2, 16, 30, prm("threads", 2))},
 		[]Stage{en("crash08", 16, 900, prm("oracle", "c08", "len", 5, "alphabet", "T2 TV TD WB F C R GC")), sched("crash08c", 2, 16, 300, prm("threads", 2)), sched("crash08c", 2, 16, 600, prm("threads", 3))})
 	planTable["C09"] = crashPlan("For every write step (WAL and value-log mmap writes, MANIFEST appends) of every history, the written file is torn at EVERY byte offset of the bytes that step changed (remainder as before the step: for the pre-allocated mmap logs zeros up to the old length and, additionally, the file ending at the cut; for the MANIFEST both cut short and zero-filled to the new length), all other files as before the step; plain and encrypted. Each image must Open and show a commit-order prefix containing every acknowledged operation, the in-flight transaction present as a whole or not at all.",
 		"Torn states are derived from consecutive quiescent snapshots around each write step, so every other file is consistent with the moment of the tear.",
@@ -451,6 +454,7 @@ func init() {
 				sched("c29race", 2, 4, 40, prm("cases", 4)),
 				en("crash08", 16, 60, prm("oracle", "c29", "len", 3, "alphabet", "T2 WB F C DP DA")),
 				en("crash08", 16, 40, prm("oracle", "c29", "len", 4, "alphabet", "T2 F DA DP")), // overwrite after a flush, then the drop
+				en("crash08", 16, 40, prm("oracle", "c29", "len", 4, "alphabet", "T2 IO IC DP", "scripted", "WB T2 IO DP;IO T2 WB DP;T2 IO F DP T2")), // DropPrefix while an iterator opened earlier is still open (it pins the memtable and its WAL)
 			}
 		} else {
 			p.Stages = []Stage{
